@@ -123,6 +123,8 @@ theorem ensurePath_W {o r path} (hr : RootW r) : OutW (ensurePath o r path) := b
   · exact hr
   · exact hr
   · rename_i hd parts _ _
+    split
+    · exact hr
     have := ensure_W o parts r.selfCR r.self r.con hr.1 hr.2
     cases h : ensure o r.selfCR r.self r.con parts with
     | ok p => obtain ⟨c, s⟩ := p; rw [h] at this; exact this
@@ -262,10 +264,13 @@ theorem opAdd_ensure_class {o : Opts} {e : Bool} {r : Root} {op : Op} {sop : Spe
   have href := Ens.opAdd_ensure_refines (o := o) sz acc he hr hk hpath hval hsval hc hq
   rw [h] at href
   obtain ⟨er, her⟩ := href
-  refine ⟨er, her, ErrC_plain ?_ (opAdd_not_special her)⟩
   cases hp : Spec.parsePointer op.path with
-  | none => simp only [Spec.applyOp, hpath, hp] at h; cases h
+  | none =>
+    rw [spec_path_none (by rw [hpath]; exact hp) (by simp [hk])] at h
+    cases h
+    exact ⟨.missing, opAdd_path_none_any o r op hp, ErrC_missing (Or.inr rfl)⟩
   | some toks =>
+    refine ⟨er, her, ErrC_plain ?_ (opAdd_not_special her)⟩
     cases toks with
     | nil =>
       rw [spec_add_root hk (by rw [hpath]; exact hp) hsval] at h
